@@ -243,7 +243,7 @@ func (w *World) Enabled() []Event {
 		for _, op := range sc.Ops[i] {
 			ev := op
 			ev.A = i
-			if w.leftCalled[i] && op.Kind != "compact" {
+			if w.leftCalled[i] && op.Kind != "compact" && !(sc.WritesAfterLeave && (op.Kind == "up" || op.Kind == "del")) {
 				continue // after a leave only the periodic compaction still runs
 			}
 			switch op.Kind {
